@@ -3,8 +3,8 @@ import RpmVerif.Model.Fs
 # C12 — what the property demands of one extraction (decidable, independent of the FS model's run)
 
 * `Contained`   : nothing outside the destination differs between two file systems;
-* `noDotDot`, `noBelowLink`, `threeKinds` : the syntactic conditions on what a package says under
-  which containment / totality are provable of today's code (each hostile witness breaks one);
+* `noDotDot`, `noBelowLink`, `threeKinds` : syntactic classes of hostile input (used by the driver to name
+  the class of a regression: `dotdot-escape`, `symlink-follow-escape`, `special-type-panic`);
 * `benign`      : "built package" — additionally no duplicates, parents listed in DIRNAMES, files
   and links not used as directories;
 * `Faithful`    : every entry is at destination+path with its content, permission bits, link target.
